@@ -363,7 +363,16 @@ func (g *G) node(depth int) Node {
 			} else {
 				g.vars = append(g.vars, name)
 			}
-			return Assign{Name: name, E: g.Value(depth), T: g.trim()}
+			e := g.Value(depth)
+			// no direct self-feeding ({% assign s = s | append: s %}): inside nested loops that doubles a string per
+			// iteration, and a template that exhausts memory by its own doing tells nothing about the engine
+			for try := 0; try < 4 && mentions(DefaultStyle.ExprSource(e), name); try++ {
+				e = g.Value(depth)
+			}
+			if mentions(DefaultStyle.ExprSource(e), name) {
+				e = Lit{V: Int(int64(r.Intn(5)))}
+			}
+			return Assign{Name: name, E: e, T: g.trim()}
 		case c == 9 && g.F.Capture && !leaf:
 			name := []string{"c1", "c2", "s2"}[r.Intn(3)]
 			body := g.seq(depth+1, r.Range(1, 3))
@@ -371,6 +380,15 @@ func (g *G) node(depth int) Node {
 				name = []string{"c1", "c2"}[r.Intn(2)]
 			} else {
 				g.vars = append(g.vars, name)
+			}
+			if mentions(DefaultStyle.Source(body), name) {
+				// a capture that contains its own earlier value grows geometrically in a loop: capture under a name the body does not read
+				for _, alt := range []string{"c1", "c2", "c3"} {
+					if !mentions(DefaultStyle.Source(body), alt) {
+						name = alt
+						break
+					}
+				}
 			}
 			tt := [2]Trim{g.trim(), g.trim()}
 			return Capture{Name: name, Body: body, T: tt}
@@ -464,4 +482,23 @@ func (g *G) node(depth int) Node {
 func FullFeatures() Features {
 	return Features{Loops: true, Tablerow: true, Cycle: true, Capture: true, Assign: true, Case: true, RawComment: true, Trim: true,
 		Filters: true, AllFilters: true, MaxDepth: 3, MaxNodes: 16}
+}
+
+// mentions reports whether identifier name occurs in src as a whole word.
+func mentions(src, name string) bool {
+	for i := 0; i+len(name) <= len(src); i++ {
+		if src[i:i+len(name)] != name {
+			continue
+		}
+		before := i == 0 || !isIdentByte(src[i-1])
+		after := i+len(name) == len(src) || !isIdentByte(src[i+len(name)])
+		if before && after {
+			return true
+		}
+	}
+	return false
+}
+
+func isIdentByte(b byte) bool {
+	return b == '_' || b >= '0' && b <= '9' || b >= 'a' && b <= 'z' || b >= 'A' && b <= 'Z'
 }
